@@ -623,6 +623,8 @@ impl<'i, R: RuleType> ParserState<'i, R> {
 
     #[inline]
     fn inc_call_check_limit(mut self: Box<Self>) -> ParseResult<Box<Self>> {
+        #[cfg(pest_parser_pest_verif)]
+        verif::VERIF_CALLS.fetch_add(1, Ordering::Relaxed);
         if self.call_tracker.limit_reached() {
             return Err(self);
         }
@@ -697,7 +699,32 @@ impl<'i, R: RuleType> ParserState<'i, R> {
         // we've made a parsing progress.
         let remember_max_position = self.parse_attempts.max_position;
 
+        #[cfg(all(pest_parser_pest_verif, feature = "std"))]
+        verif::trace(
+            true,
+            &rule,
+            actual_pos,
+            self.lookahead,
+            self.atomicity,
+            false,
+        );
+
         let result = f(self);
+
+        #[cfg(all(pest_parser_pest_verif, feature = "std"))]
+        {
+            let state = match &result {
+                Ok(state) | Err(state) => state,
+            };
+            verif::trace(
+                false,
+                &rule,
+                state.position.pos(),
+                state.lookahead,
+                state.atomicity,
+                result.is_ok(),
+            );
+        }
 
         let mut try_add_rule_to_stack = |new_state: &mut Box<ParserState<'_, R>>| {
             if new_state.parse_attempts.max_position > remember_max_position {
@@ -1779,6 +1806,142 @@ impl<'i, R: RuleType> ParserState<'i, R> {
     pub(crate) fn restore(mut self: Box<Self>) -> Box<Self> {
         self.stack.restore();
         self
+    }
+}
+
+/// Verification hooks (only with `--cfg pest_parser_pest_verif`): read-only observation of the
+/// parser state, a counter of combinator calls and a trace of `rule` invocations. They add no
+/// behaviour.
+#[cfg(pest_parser_pest_verif)]
+pub mod verif {
+    use super::*;
+
+    /// Number of calls that went through the call-limit check since the last reset.
+    pub static VERIF_CALLS: AtomicUsize = AtomicUsize::new(0);
+
+    /// Reads the call counter.
+    pub fn calls() -> usize {
+        VERIF_CALLS.load(Ordering::Relaxed)
+    }
+
+    /// Resets the call counter.
+    pub fn reset_calls() {
+        VERIF_CALLS.store(0, Ordering::Relaxed);
+    }
+
+    /// A token of the queue: (is_start, input position, rule (Debug text, End tokens only), tag).
+    pub type SnapshotToken = (bool, usize, Option<String>, Option<String>);
+
+    /// Observable state of a `ParserState`.
+    #[derive(Clone, Debug, PartialEq, Eq)]
+    pub struct Snapshot {
+        /// current position
+        pub pos: usize,
+        /// token queue
+        pub tokens: Vec<SnapshotToken>,
+        /// stack contents, bottom first
+        pub stack: Vec<String>,
+        /// look-ahead status
+        pub lookahead: Lookahead,
+        /// atomicity
+        pub atomicity: Atomicity,
+        /// furthest failure position and the attempts recorded there
+        pub attempt_pos: usize,
+    }
+
+    impl<'i, R: RuleType> ParserState<'i, R> {
+        /// Read-only snapshot of the observable state.
+        pub fn verif_snapshot(&self) -> Snapshot {
+            let tokens = self
+                .queue
+                .iter()
+                .map(|t| match t {
+                    QueueableToken::Start { input_pos, .. } => (true, *input_pos, None, None),
+                    QueueableToken::End {
+                        input_pos,
+                        rule,
+                        tag,
+                        ..
+                    } => (
+                        false,
+                        *input_pos,
+                        Some(alloc::format!("{rule:?}")),
+                        tag.map(|t| t.to_owned()),
+                    ),
+                })
+                .collect();
+            let len = self.stack.len();
+            let stack = self.stack[0..len]
+                .iter()
+                .map(|s| s.as_borrowed_or_rc().as_str().to_owned())
+                .collect();
+            Snapshot {
+                pos: self.position.pos(),
+                tokens,
+                stack,
+                lookahead: self.lookahead,
+                atomicity: self.atomicity,
+                attempt_pos: self.attempt_pos,
+            }
+        }
+    }
+
+    /// One `rule` invocation event.
+    #[cfg(feature = "std")]
+    #[derive(Clone, Debug, PartialEq, Eq)]
+    pub struct TraceEvent {
+        /// true on entry, false on exit
+        pub enter: bool,
+        /// Debug text of the rule
+        pub rule: String,
+        /// position (on entry: where the rule starts; on exit: where the state is left)
+        pub pos: usize,
+        /// look-ahead status
+        pub lookahead: Lookahead,
+        /// atomicity
+        pub atomicity: Atomicity,
+        /// on exit: whether the rule matched
+        pub ok: bool,
+    }
+
+    #[cfg(feature = "std")]
+    std::thread_local! {
+        static TRACE: core::cell::RefCell<Option<Vec<TraceEvent>>> = const { core::cell::RefCell::new(None) };
+    }
+
+    /// Starts recording `rule` invocations on this thread.
+    #[cfg(feature = "std")]
+    pub fn trace_start() {
+        TRACE.with(|t| *t.borrow_mut() = Some(Vec::new()));
+    }
+
+    /// Stops recording and returns the events.
+    #[cfg(feature = "std")]
+    pub fn trace_take() -> Vec<TraceEvent> {
+        TRACE.with(|t| t.borrow_mut().take().unwrap_or_default())
+    }
+
+    #[cfg(feature = "std")]
+    pub(super) fn trace<R: Debug>(
+        enter: bool,
+        rule: &R,
+        pos: usize,
+        lookahead: Lookahead,
+        atomicity: Atomicity,
+        ok: bool,
+    ) {
+        TRACE.with(|t| {
+            if let Some(v) = t.borrow_mut().as_mut() {
+                v.push(TraceEvent {
+                    enter,
+                    rule: alloc::format!("{rule:?}"),
+                    pos,
+                    lookahead,
+                    atomicity,
+                    ok,
+                });
+            }
+        });
     }
 }
 
